@@ -78,7 +78,9 @@ def main():
                 os.makedirs(os.path.dirname(os.path.join(scratch, rel)), exist_ok=True)
                 shutil.copy(src, os.path.join(scratch, rel))
             shutil.copytree(out, os.path.join(scratch, "OUT"))
+            import re
             demo_cmd = meta.get("demo_cmd", "").replace(wt, scratch)
+            demo_cmd = re.sub(r"\s{2,}\(.*$", "", demo_cmd)  # agents sometimes append a "(comment)" to the command
             denv = dict(ENV, WT=scratch)
             rc, o = sh(["bash", "-c", demo_cmd], cwd=scratch, env=denv, timeout=1200)
             ran["demo_without_change_passes"] = rc == 0
